@@ -383,6 +383,10 @@ func Generate(rng *rand.Rand, prop, tier string, gomaxprocs int) *Desc {
 		if k := rng.Intn(9); k < 2 {
 			x.CtxKind = 1 + k
 		}
+		if x.CancelMode == CancelExternal && rng.Intn(4) == 0 {
+			x.CtxKind, x.AtErr = 1, 1+rng.Intn(3)
+			x.Stuck = nil // nothing may wait for a cancellation that only comes when the caller looks again
+		}
 		x.SlowEmit = emitters(p) > 0 && rng.Intn(3) == 0
 		x.SharedErr = rng.Intn(5) == 0
 		if prop == "C11" && p.Flow != nil && rng.Intn(4) == 0 {
